@@ -185,11 +185,160 @@ let judge_report ids impl expect : verdict =
      | _ -> Mismatch "the model rejects a request the implementation accepted")
   | _ -> Mismatch "unreadable report"
 
+
+(* ---- c: CFF::subset against the abstract model (see run_c in the harness for the format) *)
+type ixview = { ilen : int; ients : (int * int) list }   (* listed entries: index, hash (0 = empty) *)
+
+let parse_ix s =
+  match split_on ';' s with
+  | [l; e] ->
+    { ilen = int_of_string l;
+      ients = if e = "" then [] else List.map (fun x -> match split_on '=' x with
+        | [i; h] -> (int_of_string i, int_of_string h) | _ -> failwith "ix entry") (split_on '.' e) }
+  | _ -> failwith "ix"
+
+let parse_locals s : (int * ixview option) list =
+  if s = "-" then [] else
+  List.map (fun x ->
+    let k = String.index x ':' in
+    let fd = int_of_string (String.sub x 0 k) and body = String.sub x (k + 1) (String.length x - k - 1) in
+    (fd, if body = "none" then None else Some (parse_ix body))) (split_on '/' s)
+
+let bytes_of_hash h : z list = if h = 0 then [] else [z_of_int h]
+let unknown : z list = [z_of_int (-1)]
+
+let index_of_view v : z list list =
+  List.init v.ilen (fun i -> match List.assoc_opt i v.ients with Some h -> bytes_of_hash h | None -> unknown)
+
+let dots s = if s = "-" || s = "" then [] else List.map int_of_string (split_on '.' s)
+
+type gview = { g : int; cs : int; ug : int list; ul : int list; uerr : bool; gfd : int; sid : int }
+
+let parse_gviews s =
+  if s = "-" then [] else
+  List.map (fun x -> match split_on ':' x with
+    | [g; cs; ug; ul; fd; sid] ->
+      { g = int_of_string g; cs = int_of_string cs; uerr = (ug = "x");
+        ug = (if ug = "x" then [] else dots ug); ul = dots ul; gfd = int_of_string fd; sid = int_of_string sid }
+    | _ -> failwith "gview") (split_on ',' s)
+
+(* a list whose entry g is (f v) for the requested glyphs that have one, a placeholder elsewhere, cut after the
+   largest defined entry (so undefined requested glyphs fall outside) *)
+let sparse gv (def : gview -> 'a option) (ph : 'a) : 'a list =
+  let n = List.fold_left (fun acc v -> match def v with Some _ -> max acc (v.g + 1) | None -> acc) 0 gv in
+  List.init n (fun i -> match List.find_opt (fun v -> v.g = i && def v <> None) gv with
+    | Some v -> (match def v with Some x -> x | None -> ph) | None -> ph)
+
+let model_of_src src =
+  match split_on '!' src with
+  | [hd; gvs; gix; locs] ->
+    let kind, np = (match split_on ';' hd with [k; n] -> (k, int_of_string n) | _ -> failwith "hd") in
+    let gv = parse_gviews gvs in
+    let css = sparse gv (fun v -> if v.cs < 0 then None else Some (bytes_of_hash v.cs)) unknown in
+    let cset = sparse gv (fun v -> if v.sid < 0 then None else Some (z_of_int v.sid)) (z_of_int (-7)) in
+    let gsub = index_of_view (parse_ix gix) in
+    let locals = parse_locals locs in
+    let var =
+      if kind = "T" then VType1 (match locals with [(_, Some v)] -> Some (index_of_view v) | _ -> None)
+      else VCID (sparse gv (fun v -> if v.gfd < 0 then None else Some (z_of_int v.gfd)) (z_of_int (-7)),
+                 z_of_int np,
+                 List.map (fun (_, v) -> match v with Some v -> Some (index_of_view v) | None -> None) locals) in
+    let used (g : z) = (match List.find_opt (fun v -> v.g = z_to_int g) gv with
+      | Some v when v.uerr -> Err OtherErr
+      | Some v -> Ok (List.map z_of_int v.ug, List.map z_of_int v.ul)
+      | None -> Ok ([], [])) in
+    ({ char_strings = css; global_subrs = gsub; charset = cset; var = var }, used, gv)
+  | _ -> failwith "src view"
+
+let show_ix (ix : z list list) =
+  let ents = List.concat (List.mapi (fun i b -> match b with
+    | [] -> [] | h :: _ -> [Printf.sprintf "%d=%s" i (z_to_string h)]) ix) in
+  Printf.sprintf "%d;%s" (List.length ix) (String.concat "." ents)
+
+let show_local fd = function
+  | None -> Printf.sprintf "%d:none" fd
+  | Some ix -> Printf.sprintf "%d:%s" fd (show_ix ix)
+
+let nth_or l n d = match List.nth_opt l n with Some x -> x | None -> d
+
+let show_out (c : cff) =
+  let n = List.length c.char_strings in
+  let cs = List.map (fun b -> match b with [] -> "0" | h :: _ -> z_to_string h) c.char_strings in
+  let kind, fds, locs = (match c.var with
+    | VType1 l -> ("T", List.init n (fun _ -> "0"), show_local 0 l)
+    | VCID (fds, _, locals) ->
+      ("C", List.init n (fun i -> z_to_string (nth_or fds i (z_of_int (-1)))),
+       if locals = [] then "-" else String.concat "/" (List.mapi show_local locals))) in
+  let sids = List.init n (fun i -> z_to_string (nth_or c.charset i (z_of_int (-1)))) in
+  String.concat "!" [kind; join cs; join fds; join sids; show_ix c.global_subrs; locs]
+
+let judge_c ids convert impl : verdict =
+  match split_on '|' impl with
+  | ["ok"; olds; src; out] ->
+    let (c, used, gv) = model_of_src src in
+    (match cff_subset c used (List.map z_of_int ids) convert with
+     | Ok (c', n2o) ->
+       let mout = show_out c' and molds = join (List.map z_to_string n2o) in
+       if mout = out && molds = olds then Agree
+       else begin
+         (* the property on the implementation's own output *)
+         match split_on '!' out with
+         | [_; cs; fds; _; gix; locs] ->
+           let cs = Array.of_list (ints cs) and fds = Array.of_list (ints fds) in
+           let og = parse_ix gix and ol = parse_locals locs in
+           let sg = (match split_on '!' src with [_; _; g; _] -> parse_ix g | _ -> failwith "src") in
+           let sl = (match split_on '!' src with [_; _; _; l] -> parse_locals l | _ -> failwith "src") in
+           let kept (s : ixview) (o : ixview) i =
+             s.ilen = o.ilen && (match List.assoc_opt i s.ients with
+               | Some h -> h = 0 || List.assoc_opt i o.ients = Some h | None -> true) in
+           let valid = valid_ids ids in
+           let bad cls why = if valid then Violation (cls, why) else Mismatch why in
+           if ints olds <> ids then bad "cff-order" "old ids are not the requested ids"
+           else if Array.length cs <> List.length ids then bad "cff-count" "CharStrings count"
+           else begin
+             let res = ref (Mismatch "differs from the model, property holds") in
+             List.iteri (fun n v ->
+               if cs.(n) <> v.cs then res := bad "cff-charstring" (Printf.sprintf "CharString of new glyph %d" n)
+               else if List.exists (fun i -> not (kept sg og i)) v.ug then
+                 res := bad "cff-subr" (Printf.sprintf "a global subr called by new glyph %d changed" n)
+               else if v.ul <> [] then begin
+                 let ofd = fds.(n) in
+                 match List.assoc_opt (max v.gfd 0) sl, List.assoc_opt ofd ol with
+                 | Some (Some s), Some (Some o) ->
+                   if List.exists (fun i -> not (kept s o i)) v.ul then
+                     res := bad "cff-subr" (Printf.sprintf "a local subr called by new glyph %d changed" n)
+                 | _ -> res := bad "cff-subr" (Printf.sprintf "local subrs of new glyph %d are gone" n)
+               end) gv;
+             !res
+           end
+         | _ -> Mismatch "unreadable output view"
+       end
+     | Err _ -> Mismatch "the model rejects a request the implementation accepted"
+     | _ -> Mismatch "the model panics")
+  | [e; src] when starts_with "err:" e ->
+    let (c, used, _) = model_of_src src in
+    (match cff_subset c used (List.map z_of_int ids) convert with
+     | Err me ->
+       let ms = "err:" ^ err_to_string me in
+       if ms = e || (me = OtherErr && starts_with "err:CFF" e) then Agree else Mismatch ("model: " ^ ms)
+     | Ok _ -> if valid_ids ids then Mismatch "the implementation rejects a request the model accepts" else Mismatch "error only in the implementation"
+     | _ -> Mismatch "the model panics")
+  | _ -> Mismatch "unreadable result"
+
 let judge (input : string) (impl : string) (model : string) : verdict =
   let parts = split_on '|' input in
   if starts_with "panic" impl || starts_with "oob" impl then
     Violation ("panic", "subsetting panicked (" ^ (match parts with k :: _ -> k | [] -> "?") ^ ")")
-  else if starts_with "bad-output" impl then Violation ("bad-output", "the subset font cannot be read back: " ^ impl)
+  else if starts_with "bad-output" impl then begin
+    let ids = (match parts with
+      | "t" :: _ :: _ :: _ :: _ :: i :: _ -> ints i
+      | "f" :: _ :: i :: _ | "c" :: _ :: i :: _ -> ints i
+      | "s" :: _ :: _ :: _ :: _ :: _ :: i :: _ -> ints i
+      | _ -> [0]) in
+    if valid_ids ids then Violation ("bad-output", "the subset font cannot be read back: " ^ impl)
+    else if (match parts with "s" :: _ -> true | _ -> false) then Agree   (* duplicates / no .notdef: outside the domain *)
+    else Mismatch ("unreadable subset for a request outside the property's domain: " ^ impl)
+  end
   else match parts with
   | "g" :: m :: tbl :: idss :: _ ->
     if impl = model then Agree
@@ -247,11 +396,47 @@ let judge (input : string) (impl : string) (model : string) : verdict =
       | _ -> Agree
     end
     else Mismatch "unreadable result"
+  | "c" :: _ :: idss :: conv :: _ ->
+    if impl = "nofont" then Mismatch "fixture missing"
+    else (try judge_c (ints idss) (conv = "1") impl with Failure w -> Mismatch ("unreadable views: " ^ w))
+  | "s" :: _ :: _ :: glyphs :: _ :: _ :: idss :: _ ->
+    (* synthetic CFF: model-independent, the outline of new glyph n is the outline of source glyph ids[n] *)
+    let ids = ints idss in
+    let gl = Array.of_list (List.filter (fun x -> x <> "" && x <> "-") (split_on ' ' glyphs)) in
+    (match split_on '|' impl with
+     | ["ok"; outs; srcs] ->
+       let o = (if outs = "-" then [] else split_on ',' outs) and sv = (if srcs = "-" then [] else split_on ',' srcs) in
+       let valid = valid_ids ids && List.for_all (fun g -> g < Array.length gl) ids in
+       (* no model for this kind: outside the property's domain (duplicates, no leading 0, out of range) nothing is claimed *)
+       let bad cls why = if valid then Violation (cls, why) else Agree in
+       if List.length o <> List.length ids then bad "count" "the subset does not have one glyph per requested id"
+       else begin
+         let res = ref Agree in
+         List.iteri (fun n (oh, sh) ->
+           if !res = Agree && oh <> sh && not (String.length sh > 0 && sh.[0] = 'E') then begin
+             let g = List.nth ids n in
+             let seac = g < Array.length gl && String.contains gl.(g) 'S' in
+             res := bad (if seac then "cff-seac" else "outline-requested")
+                 (Printf.sprintf "new glyph %d does not have the outline of source glyph %d%s" n g
+                    (if seac then " (seac: base or accent glyph not retained)" else ""))
+           end) (List.combine o sv);
+         !res
+       end
+     | _ ->
+       if starts_with "err:" impl then
+         (if valid_ids ids && List.for_all (fun g -> g < Array.length gl) ids
+          then Mismatch "subsetting failed on a request inside the property's domain" else Agree)
+       else Mismatch "unreadable result")
   | _ -> Mismatch "unknown case kind"
 
 let tag (input : string) (out : string) : string =
   let kind = String.sub input 0 1 in
   let extra =
-    if kind = "f" then (match split_on '|' input with _ :: f :: _ -> "-" ^ Filename.basename f | _ -> "")
+    if kind = "f" || kind = "c" then (match split_on '|' input with _ :: f :: _ -> "-" ^ Filename.basename f | _ -> "")
+    else if kind = "s" then (match split_on '|' input with
+      | _ :: ng :: nl :: gl :: _ ->
+        let regime n = let n = int_of_string n in if n = 0 then "none" else if n < 1240 then "b107" else if n < 33900 then "b1131" else "b32768" in
+        Printf.sprintf "-g%s-l%s%s" (regime ng) (regime nl) (if String.contains gl 'S' then "-seac" else "")
+      | _ -> "")
     else "-" ^ String.sub out 0 (min 2 (String.length out)) in
   kind ^ extra
